@@ -450,6 +450,39 @@ def chain_order(pc):
     return ok1 and ok2
 
 
+def ord_spec(lib, e, flip=False):
+    """[(field, reversed?)] for an Ordering written with Ordering::then / then_with / reverse over single-field comparisons
+    (`a.input.cmp(&b.input).then(a.output.cmp(&b.output)).reverse()`); None when e is not of that form"""
+    while e[0] == 'agg' and e[1].endswith('Option::Some') and e[2]:
+        e = e[2][0][1]
+    if is_call(e, 'Ordering::reverse') and len(e[2]) == 1:
+        return ord_spec(lib, e[2][0], not flip)
+    if is_call(e, 'Ordering::then') and len(e[2]) == 2:
+        a, b = ord_spec(lib, e[2][0], flip), ord_spec(lib, e[2][1], flip)
+        return None if a is None or b is None else a + b
+    if is_call(e, 'Ordering::then_with') and len(e[2]) == 2 and e[2][1][0] == 'closure' and e[2][1][1] in lib.fns:
+        import vsplit
+        from sym import subst
+        rr = [q.ret() for q in explore(lib.fns[e[2][1][1]], max_visits=1) if q.end == 'return']
+        if len(rr) != 1:
+            return None
+        a, b = ord_spec(lib, e[2][0], flip), ord_spec(lib, vsplit.simp(subst(rr[0], {1: e[2][1]})), flip)
+        return None if a is None or b is None else a + b
+    if e[0] == 'call' and isinstance(e[1], str) and e[1].rsplit('::', 1)[-1] in ('cmp', 'partial_cmp') and len(e[2]) == 2 and not e[1].startswith('<raw::ops::Slot as'):
+        a, b = e[2]
+        pa = {x[2] for x in walk(a) if x[0] == 'param'}
+        pb = {x[2] for x in walk(b) if x[0] == 'param'}
+        fa = [x[2] for x in walk(a) if x[0] == 'field' and x[2] in ('input', 'output')]
+        fb = [x[2] for x in walk(b) if x[0] == 'field' and x[2] in ('input', 'output')]
+        if len(fa) != 1 or fa != fb:
+            return None
+        if pa == {1} and pb == {2}:
+            return [(fa[0], flip)]
+        if pa == {2} and pb == {1}:
+            return [(fa[0], not flip)]
+    return None
+
+
 def r05_3(ctx):
     R = ctx.rule('R05.3', 'heap order = reverse of (key, value); pop_if_equal tests ==, pop_if_le tests <=; difference drains with <=', floor=4)
     lib = ctx.lib
@@ -471,6 +504,12 @@ def r05_3(ctx):
                 continue
             pvs._tmpl[pc.path] = None
             rv = pvs.inline(p.ret())
+            if any(is_call(x, 'Ordering::then') or is_call(x, 'Ordering::then_with') for x in walk(rv)):
+                spec = ord_spec(lib, rv)
+                if spec is not None:
+                    ctx.check(R, spec == [('input', True), ('output', True)], key, 'the heap must order slots by the REVERSE of (key, value) so that the smallest key is on top: found the chain %s' % (
+                        ', '.join('%s %s' % (f_, 'reversed' if r_ else 'natural') for f_, r_ in spec)), fn=pc)
+                    continue
             cmpc = [x for x in walk(rv) if x[0] == 'call' and isinstance(x[1], str) and x[1].rsplit('::', 1)[-1] in ('partial_cmp', 'cmp') and len(x[2]) == 2
                     and not x[1].startswith('<raw::ops::Slot as')]
             # keep only the outermost comparison of the (key, value) pairs
